@@ -331,6 +331,29 @@ def build_molecule(en: Enums, spec: dict, cls=None):
     return m
 
 
+def reentrant_dump(ens, method: str):
+    """dump `ens` through a stream whose first write() starts a second, complete dump of the SAME ensemble (what a
+    logging / tee stream or a second thread does): returns (outer text, inner text)"""
+    from io import StringIO
+
+    class Tee(StringIO):
+        inner = None
+        busy = False
+
+        def write(self, s):
+            if self.inner is None and not self.busy:
+                self.busy = True
+                try:
+                    self.inner = getattr(ens, "dumps_" + method)()
+                finally:
+                    self.busy = False
+            return super().write(s)
+
+    st = Tee()
+    getattr(ens, "dump_" + method)(st)
+    return st.getvalue(), st.inner
+
+
 def load_corpus(prop: str) -> list:
     d = VERIF / "corpus" / prop
     out = []
